@@ -128,3 +128,9 @@ Print Assumptions C04_source_handlers_check_before_they_change.
 Theorem C04_source_respond_order : ShapeLib.respond_order = true.
 Proof. exact POrder.respond_order_ok. Qed.
 Print Assumptions C04_source_respond_order.
+
+(* a fid whose creating request is still unanswered (or whose last reference is gone) is not handed out: FidGet looks at
+   creating and dead under the fid's lock before it counts a reference - "valid only through a SUCCESSFUL Tauth/Tattach/Twalk" *)
+Theorem C04_source_fidget_guard : ShapeLib.fidget_guard = true.
+Proof. exact PSeq.fidget_guard_ok. Qed.
+Print Assumptions C04_source_fidget_guard.
